@@ -25,6 +25,8 @@ Modes    == {"default", "workdir", "keep"}
 \* "timeout_term": the timed-out shell ignores SIGTERM; "timeout_closed": the command closed its output streams and runs on
 Outcomes == {"pass", "fail", "timeout", "skip", "timeout_term", "timeout_closed"}
 
+\* env = "shared": the process is started with -P / -A documents; their test cases run as part of every document and must
+\* see that document's environment too
 \* a scenario: per process its mode and the outcome classes of its documents (same file name or not)
 VARIABLES sc, fs, pc, d, owned, wd
 vars == <<sc, fs, pc, d, owned, wd>>
@@ -34,7 +36,7 @@ Dir(p, i, role) == <<p, i, role>>
 UserDir(p) == <<p, 0, "W">>
 
 ProcScen == IF Full
-            THEN [mode : Modes, docs : UNION {[1..n -> Outcomes] : n \in 1..2}, samename : BOOLEAN, env : {"plain", "unset", "overwrite"}]
+            THEN [mode : Modes, docs : UNION {[1..n -> Outcomes] : n \in 1..2}, samename : BOOLEAN, env : {"plain", "unset", "overwrite", "shared"}]
             ELSE [mode : Modes, docs : {<<"pass">>, <<"pass", "fail">>}, samename : {TRUE}, env : {"plain"}]
 Init == /\ sc \in [Procs -> ProcScen]
         /\ fs = {UserDir(p) : p \in {q \in Procs : sc[q].mode = "workdir"}}
